@@ -9,6 +9,8 @@
 (* long texts, as a splice of the text of the of-th Save of this execution:  *)
 (* its first cp characters, then the characters mid, then its last cs ones.  *)
 (*                                                                           *)
+(* Clock and deadlines are absolute 64-bit time_t values logged as limb        *)
+(* triples (Cookie!GeqW); a Tick carries the new clock value.                 *)
 (* Load rule (DESIGN.md C05, Cookie!LoadRule): with                          *)
 (*   live = { r in issued[cfg] : c0 = 'C', tx decodable, tx decodes to the   *)
 (*            same bytes as the text issued by r, r.dl >= now }              *)
@@ -109,8 +111,8 @@ Matching(cfg) ==
 (* session_cookies::load through a session_interface + cookie adapter *)
 TLoad ==
     /\ Is("Load")
-    /\ LET live == { r \in Matching(Ev.cfg) : r.dl >= now } IN
-       /\ AuthFreshP(Ev.ok, Ev.id, Ev.dl, live, now)
+    /\ LET live == { r \in Matching(Ev.cfg) : GeqW(r.dl, now) } IN
+       /\ AuthFreshW(Ev.ok, Ev.id, Ev.dl, live, now)
        /\ (~Ev.ok /\ Ev.c0 # -1) => Ev.cleared
        /\ (Has(Ev, "rv") /\ Ev.ok) => Ev.rv           \* nothing loads that the reference keys do not authenticate
        /\ (\E r \in live : SameText(r)) => Ev.ok
@@ -122,7 +124,7 @@ TLoad ==
 TDec ==
     /\ Is("Dec")
     /\ LET m == Matching(Ev.cfg) IN
-       /\ AuthFreshP(Ev.ok, Ev.id, Ev.dl, m, Ev.dl)
+       /\ AuthFreshW(Ev.ok, Ev.id, Ev.dl, m, Ev.dl)
        /\ (Has(Ev, "rv") /\ Ev.ok) => Ev.rv
        /\ (\E r \in m : SameText(r)) => Ev.ok
        /\ Strict => (m # {} => Ev.ok)
@@ -131,7 +133,7 @@ TDec ==
 
 TTick ==
     /\ Is("Tick")
-    /\ now' = now + Ev.d
+    /\ now' = Ev.now
     /\ res' = [NoRes EXCEPT !.op = "tick"]
     /\ UNCHANGED <<issued, aes, svl>> /\ Frozen
 
